@@ -46,7 +46,7 @@ NextPrefix == nt = 0 /\ \E hi \in 0..255, lo \in 0..255, tl \in Tails : bs' = <<
 \* ---- packet grammar ----
 Long == [i \in 1..520 |-> 97 + (i % 26)]
 Strs == { <<>>, <<97>>, <<195, 169>>, OCTET, <<47, 97, 92, 46, 46>>, Long }
-Modes == { OCTET, <<>>, <<110, 101, 116, 97, 115, 99, 105, 105>> }
+Modes == { OCTET, <<>>, <<110, 101, 116, 97, 115, 99, 105, 105>>, Up(OCTET), <<77, 97, 105, 108>> }
 Opt1 == { [o |-> o, v |-> v] : o \in {"blksize", "tsize", "timeout", "windowsize"},
                                v \in { <<0>>, <<1>>, <<6, 5, 4, 6, 4>>, MAXU64 } }
 OptLists == { <<>> } \cup { <<a>> : a \in Opt1 }
